@@ -1009,6 +1009,21 @@ def frecord_obs():
                note='every 64-bit size / modification time / inode, every nanosecond value incl. the invalid marker; writer and reader connected through a typed event stream (byte / 32-bit / 64-bit / string)')]
 
 
+HOLE_WRITE = dict(region='hole_write', file='cmdline/state.c', begin='/* deleted blocks of the disk */', end='/* write the info for each block */', end_first_after=True, max_lines=65, expect_loops=3, brace_balance=-1,
+                  proto='static void *region_hole_write(struct snapraid_disk *disk, STREAM *f, block_off_t blockmax, void *context)',
+                  prologue='\tblock_off_t begin;\n\t{ /* per-disk loop body; the region text closes this brace */', epilogue='\treturn 0;')
+HOLE_READ = dict(region='hole_read', file='cmdline/state.c', scope="} else if (c == 'h') {", begin='disk = tommy_array_get(&disk_mapping, mapping);', end="} else if (c == 's') {", end_first_after=True, max_lines=95, expect_loops=2,
+                 proto='static void region_hole_read(struct snapraid_state *state, struct snapraid_disk *disk, STREAM *f, const char *path, block_off_t blockmax)',
+                 prologue='\tuint32_t v_pos;\n\tint ret, c;')
+
+
+def holeruns_obs():
+    return [Ob('state.h_record.holeruns.roundtrip', 'harness/h_holeruns.c', 'h_holeruns', inject=[HOLE_WRITE, HOLE_READ], unwind=6, unwindset=['memcmp.0:18', 'hash_is_zero.0:18', 'hash_is_invalid.0:18'], small_path=True, timeout=1200, mem=8, cost=8,
+               kind='bounded', bound='arrays of at most 3 parity positions, hash size 4',
+               functions=["state_write_thread: region 'h' record, runs of deleted blocks (cmdline/state.c, extracted mechanically)", "state_read_content: region 'h' record (cmdline/state.c, extracted mechanically)"],
+               note='every deleted / not deleted pattern, every hash, clear_past_hash on and off; the disk by a small model behind fs_is_block_deleted / fs_par2block_get / file_alloc / fs_file2block_get / fs_allocate')]
+
+
 def blockruns_obs():
     return [Ob('state.f_record.blockruns.roundtrip' + sfx, 'harness/h_blockruns.c', 'h_blockruns', inject=[RUNS_WRITE, RUNS_READ], defs={'NBLK': nb, 'HS': hs}, unwind=6, unwindset=['memcmp.0:18', 'hash_is_zero.0:18', 'hash_is_invalid.0:18'], small_path=True, timeout=1200, mem=8, cost=10, kind='bounded',
                bound='files of at most %d block(s), hash size %d' % (nb, hs), replay=False,
@@ -1018,7 +1033,7 @@ def blockruns_obs():
 
 
 def c10(tier, seed):
-    return stream_obs(['h_rt32', 'h_rt64', 'h_rtle32', 'h_rtbs']) + staterec_obs(tier) + blockruns_obs() + frecord_obs() + header_obs() + maprec_obs()
+    return stream_obs(['h_rt32', 'h_rt64', 'h_rtle32', 'h_rtbs']) + staterec_obs(tier) + blockruns_obs() + frecord_obs() + header_obs() + maprec_obs() + holeruns_obs()
 
 
 PROPS = {
@@ -1075,10 +1090,10 @@ PROPS['C09'].update(
     not_covered=["state_read_content record decoders other than the 'Q' validity region", 'inside of state_write_content / state_verify_content / state_rename_content (O_EXCL, flush, fsync, re-read)', 'crash points (not a contract-level statement)', 'that a CRC mismatch is always reached before any state is used'])
 PROPS['C10'].update(
     explanation='Codec pairs of the content file are exact inverses for ALL values: sgetb32(sputb32(v)) == v for all 2^32 v, sgetb64(sputb64(v)) == v for all 2^64 v, sgetble32/sputble32, sgetbs/sputbs (strings up to 6 arbitrary non-NUL bytes), with the bytes travelling through write() and read() stubs under every chunking and buffer size 1..4; the encoder output is minimal (canonical) and terminated as specified, nothing is left over. '
-                'Record level (mechanically extracted encode/decode regions of state.c, integers travelling through a FIFO that stands for sputb32/sgetb32): the nanosecond field of the f record and the per-stripe info word of the i record round-trip for all values (a time in the future is clamped to now - the documented normalisation). The block runs of the f record (writer loop and reader loop connected through a recorded event stream; bounded: 2 blocks, hash size 4, and 1 block with hash size 16), the header of the f record (size, time, inode, path through a TYPED event stream) and the header records of the file (format version choice, block size, stripe count, hash size, hash kind + seed, previous hash kind + seed: writer region and the five reader branches) round-trip for every value. Disk maps: index assignment loop, M writer loop and M reader branch (three extracted regions) - entry k of the rebuilt mapping vector is the disk that was given index k, every field of a map survives (bounded: 3 disks). The hole (h) run-length encoding, parity / link / dir records are not under contract.',
+                'Record level (mechanically extracted encode/decode regions of state.c, integers travelling through a FIFO that stands for sputb32/sgetb32): the nanosecond field of the f record and the per-stripe info word of the i record round-trip for all values (a time in the future is clamped to now - the documented normalisation). The block runs of the f record (writer loop and reader loop connected through a recorded event stream; bounded: 2 blocks, hash size 4, and 1 block with hash size 16), the header of the f record (size, time, inode, path through a TYPED event stream) and the header records of the file (format version choice, block size, stripe count, hash size, hash kind + seed, previous hash kind + seed: writer region and the five reader branches) round-trip for every value. Disk maps: index assignment loop, M writer loop and M reader branch (three extracted regions) - entry k of the rebuilt mapping vector is the disk that was given index k, every field of a map survives (bounded: 3 disks). Hole record: writer and reader loops connected - deleted blocks come back at their positions with hash and state (bounded: 3 positions). The info run-length encoding, parity / link / dir records are not under contract.',
     trusted_base=['read()/write() stubs in harness/h_stream.c'],
     assumptions=['sputbs/sgetbs round trip bounded to strings of at most 6 bytes'],
-    not_covered=['hole (h record) and info (i record) run-length codecs, parity / link / dir records', 'tommyds containers, list ordering, byte identity of whole files'])
+    not_covered=['info (i record) run-length codec, parity / link / dir records', 'tommyds containers, list ordering, byte identity of whole files'])
 PROPS['C17'].update(
     explanation='parity_split_find carries a dfcc-enforced contract for every size vector of up to SPLIT_MAX=8 splits and every offset: the result is the unique split k with prefix(k) + offset\' == offset and 0 <= offset\' < size_k, NULL exactly outside the recorded sizes, only *offset assigned. Over two calls: the address map is injective and, with block-aligned split sizes, no stripe straddles two files. '
                 'parity_write / parity_read hand exactly (fd of split k, offset\', block_size) to pwrite/pread and maintain valid_size monotonically (block sizes 2^10..2^24, concrete per unit). hbit_u64 is the highest set bit (dfcc, all 2^64 values). parity_handle_fill carries an UNBOUNDED inductive loop contract (invariant + decreases, injected into a scratch copy of parity.c, grow/shrink/hbit replaced by contracts): the file ends block aligned, never above the request, never below its previous aligned size, and exactly at the request when the OS granted every grow.',
@@ -1250,7 +1265,7 @@ def c08(tier, seed):
 def c16(tier, seed):
     """format stability = every constant / encoding is pinned to a definition that is not in the repo"""
     c17 = [o for o in PROPS['C17']['obligations'](tier, seed) if o.name in ('parity.split_find.contract', 'parity.split_find.lemma')]
-    return table_obs(tier) + crc_obs(tier) + stream_obs(['h_sgetb32', 'h_sgetb64', 'h_sgetble32', 'h_sgetbs', 'h_rt32', 'h_rt64', 'h_rtle32', 'h_rtbs']) + staterec_obs(tier) + elem_obs(tier) + c17 + hash_obs(tier) + main_obs()[:1] + frecord_obs() + blockruns_obs() + header_obs() + maprec_obs()
+    return table_obs(tier) + crc_obs(tier) + stream_obs(['h_sgetb32', 'h_sgetb64', 'h_sgetble32', 'h_sgetbs', 'h_rt32', 'h_rt64', 'h_rtle32', 'h_rtbs']) + staterec_obs(tier) + elem_obs(tier) + c17 + hash_obs(tier) + main_obs()[:1] + frecord_obs() + blockruns_obs() + header_obs() + maprec_obs() + holeruns_obs()
 
 
 def c04(tier, seed):
